@@ -152,7 +152,7 @@ func VerifC10Seq() {
 	verifAssert(src.Chmod("d/f", permF) == nil, "Chmod d/f")
 	verifAssert(hackpadfs.WriteFullFile(src, "g", dataG, 0644) == nil, "WriteFullFile g")
 	counting := &c10Source{fs: src, opens: map[string]int{}, faultRead: -1}
-	if verifChoice("source-reads", 2) == 1 {
+	if verifParam("SHORTREADS") != 0 {
 		counting.short = true
 		verifTag("source", "short reads")
 	}
